@@ -491,48 +491,44 @@ Definition spec_slices (top_only : bool) (L : list fit) (slices : list (option Z
 Definition all_same_tabs (l : list qobj) : bool :=
   match l with [] => true | x :: r => forallb (fun y => tabs_eqb (mtabs x) (mtabs y)) r end.
 
-Fixpoint merge_ok (vr : variant) (fuel : nat) (k : jk) (conds : list qobj) : bool :=
+Fixpoint merge_ok (vr : variant) (ci ct : bool) (fuel : nat) (k : jk) (conds : list qobj) : bool :=
   match fuel with
   | O => false
   | S fuel' =>
       let flat := flat_map (flatten k) conds in
       let named := filter (mergeable vr) flat in
-      forallb (fun q => match q with QNamed _ _ inv => negb inv | _ => true end) named &&
+      (negb ci || forallb (fun q => match q with QNamed _ _ inv => negb inv | _ => true end) named) &&
       forallb (fun n =>
                  let group := map qinner (filter (fun q => String.eqb (qname q) n) named) in
-                 (match k with JOr => all_same_tabs group | JAnd => true end) &&
-                 merge_ok vr fuel' k group)
+                 (negb ct || match k with JOr => all_same_tabs group | JAnd => true end) &&
+                 merge_ok vr ci ct fuel' k group)
               (nodup_str (map qname named))
   end.
-Definition junction_ok (vr : variant) (k : jk) (conds : list qobj) : bool :=
-  merge_ok vr (S (depth_list conds)) k conds.
+Definition junction_ok (vr : variant) (ci ct : bool) (k : jk) (conds : list qobj) : bool :=
+  merge_ok vr ci ct (S (depth_list conds)) k conds.
 
-(* a predicate is `safe` when every junction met while compiling it passes junction_ok,
-   negation is applied to info tests never, and compilation succeeds *)
-Fixpoint safe (vr : variant) (p : pred) : bool :=
+(* a predicate is `safe` when every junction met while compiling it passes junction_ok
+   (ci: no inverted NamedQuery takes part in a name merge; ct: every Or-merge is over equal
+   tables) and (cn) negation is never applied to an info test *)
+Fixpoint safe_with (vr : variant) (ci ct cn : bool) (p : pred) : bool :=
   match p with
   | PCmp _ _ _ | PAttr _ | PInfo _ _ => true
   | PAnd a b =>
-      safe vr a && safe vr b &&
-      match compile vr a, compile vr b with Ok x, Ok y => junction_ok vr JAnd [x; y] | _, _ => true end
+      safe_with vr ci ct cn a && safe_with vr ci ct cn b &&
+      match compile vr a, compile vr b with Ok x, Ok y => junction_ok vr ci ct JAnd [x; y] | _, _ => true end
   | POr a b =>
-      safe vr a && safe vr b &&
-      match compile vr a, compile vr b with Ok x, Ok y => junction_ok vr JOr [x; y] | _, _ => true end
+      safe_with vr ci ct cn a && safe_with vr ci ct cn b &&
+      match compile vr a, compile vr b with Ok x, Ok y => junction_ok vr ci ct JOr [x; y] | _, _ => true end
   | PNot a =>
-      safe vr a && match compile vr a with Ok (QInfo _ _ _) => false | _ => true end
+      safe_with vr ci ct cn a && (negb cn || match compile vr a with Ok (QInfo _ _ _) => false | _ => true end)
   end.
+Definition safe (vr : variant) (p : pred) : bool := safe_with vr true true true p.
 
-(* classification labels for the harness (computed from the case only) *)
+(* ~ applied to a junction (TypeError) somewhere in the predicate *)
 Fixpoint has_not_junction (vr : variant) (p : pred) : bool :=
   match p with
   | PAnd a b | POr a b => has_not_junction vr a || has_not_junction vr b
   | PNot a => has_not_junction vr a || match compile vr a with Ok (QJ _ _) => true | _ => false end
-  | _ => false
-  end.
-Fixpoint has_not_info (vr : variant) (p : pred) : bool :=
-  match p with
-  | PAnd a b | POr a b => has_not_info vr a || has_not_info vr b
-  | PNot a => has_not_info vr a || match compile vr a with Ok (QInfo _ _ _) => true | _ => false end
   | _ => false
   end.
 
@@ -570,7 +566,7 @@ Definition err_eqb (a b : err) : bool :=
 
 Inductive case :=
 (* agg.query(p).fits as a set *)
-| CQuery (db : list fit) (p : pred) (observed : outcome)
+| CQuery (db : list fit) (p : pred) (top_only : bool) (observed : outcome)
 (* agg.query(p).order_by(k1).order_by(k2)...[s1][s2]....fits as a list; the keys make the order total *)
 | COrder (db : list fit) (p : pred) (top_only : bool) (keys : list (okey * bool))
          (slices : list (option Z * option Z)) (observed : outcome).
@@ -580,9 +576,9 @@ Definition model_query (vr : variant) (db : list fit) (p : pred) : result (list 
 
 Definition check_case_with (vr : variant) (c : case) : bool :=
   match c with
-  | CQuery db p obs =>
+  | CQuery db p top_only obs =>
       match model_query vr db p, obs with
-      | Ok l, RIds ids => str_list_eqb (sort_str (map fid l)) (sort_str ids)
+      | Ok l, RIds ids => str_list_eqb (sort_str (map fid (if top_only then filter is_top l else l))) (sort_str ids)
       | Err e, RExc e' => err_eqb e e'
       | _, _ => false
       end
@@ -595,27 +591,33 @@ Definition check_case_with (vr : variant) (c : case) : bool :=
   end.
 Definition check_case := check_case_with current.
 
-(* label functions evaluated by the harness on the abstract case *)
-Definition case_pred (c : case) : pred := match c with CQuery _ p _ => p | COrder _ p _ _ _ _ => p end.
-Definition case_db (c : case) : list fit := match c with CQuery db _ _ => db | COrder db _ _ _ _ _ => db end.
-Definition lbl_safe (c : case) : bool := safe current (case_pred c).
-Definition lbl_no_not_junction (c : case) : bool := negb (has_not_junction current (case_pred c)).
-Definition lbl_no_not_info (c : case) : bool := negb (has_not_info current (case_pred c)).
-Definition lbl_no_tables3 (c : case) : bool :=
-  match compile current (case_pred c) with Err EAssertion => false | _ => true end.
-(* the model itself says: result equals the directly evaluated predicate *)
-Definition lbl_model_exact (c : case) : bool :=
-  match model_query current (case_db c) (case_pred c) with
+(* label functions evaluated by the harness on the abstract case (never on the outcome) *)
+Definition case_pred (c : case) : pred := match c with CQuery _ p _ _ => p | COrder _ p _ _ _ _ => p end.
+Definition case_db (c : case) : list fit := match c with CQuery db _ _ _ => db | COrder db _ _ _ _ _ => db end.
+Definition case_top (c : case) : bool := match c with CQuery _ _ t _ => t | COrder _ _ t _ _ _ => t end.
+Definition model_exact (vr : variant) (c : case) : bool :=
+  match model_query vr (case_db c) (case_pred c) with
   | Ok l => str_list_eqb (map fid l) (map fid (filter (eval (case_pred c)) (case_db c)))
   | Err _ => false
   end.
-Definition lbl_slices_exact (c : case) : bool :=
+Definition slices_exact (vr : variant) (c : case) : bool :=
   match c with
   | COrder db p top_only keys slices _ =>
-      match model_query current db p with
-      | Ok l => str_list_eqb (map fid (run_slices current top_only (ordered keys l) slices))
+      match model_query vr db p with
+      | Ok l => str_list_eqb (map fid (run_slices vr top_only (ordered keys l) slices))
                              (map fid (spec_slices top_only (ordered keys l) slices))
       | Err _ => true
       end
   | _ => true
   end.
+Definition bit (b : bool) (w : N) : N := if b then w else 0%N.
+Definition case_labels (c : case) : N :=
+  let p := case_pred c in
+  (bit (check_case c) 1
+   + bit (negb (safe_with current true false false p)) 2          (* inverted NamedQuery in a name merge *)
+   + bit (negb (safe_with current false true false p)) 4          (* Or-merge over different tables *)
+   + bit (has_not_junction current p) 8                           (* ~ of a junction *)
+   + bit (negb (safe_with current false false true p)) 16         (* ~ of an info test *)
+   + bit (match compile current p with Err EAssertion => true | _ => false end) 32
+   + bit (model_exact current c) 64
+   + bit (slices_exact current c) 128)%N.
